@@ -11,6 +11,8 @@
     h5first <tree>                              -> ok <dataset id> | err:IOError | err:out-of-fuel
     table   <key> <k₁> <v₁> … <kₙ> <vₙ>         -> ok <v> | err:KeyError | err:decoder-error
     sfdtype <subtype>                           -> <dtype> | none
+    wavframes <width> <channels> <bytes>        -> ok <shape> <samples> | err:IOError | err:ValueError | err:TypeError
+                                                   (`_wave_read_signal` on the frames `wave` hands it; bytes comma separated)
 
     <extra> ::= the non-ASCII code points of <name> that Python's `\w` accepts (`-` when there are none)
     <key>   ::= ~ | s:<string> | i:<nat>
@@ -22,6 +24,7 @@
 import PdsVerif.DriverLoop
 import PdsVerif.Model.ReadSignal
 import PdsVerif.Generated.ReadSig
+import PdsVerif.Model.WavFrames
 open PdsVerif PdsVerif.Model.ReadSignal PdsVerif.Gen.ReadSig
 
 def parseStr (t : String) : Option Str :=
@@ -143,6 +146,16 @@ def dispatchLine (line : String) : String :=
         | .error e => showErr e
       | .error e => showErr e
     | _, _ => "bad-op"
+  | ["wavframes", w, c, bytes] =>
+    match w.toNat?, c.toNat?, parseNats bytes with
+    | some w, some c, some bs =>
+      if c == 0 || !bs.all (· < 256) then "bad-op" else
+      match PdsVerif.Model.WavFrames.waveRead w c bs with
+      | .ok (shape, xs) => "ok " ++ showNats shape ++ " " ++ showInts xs
+      | .error .io => "err:IOError"
+      | .error .value => "err:ValueError"
+      | .error .type => "err:TypeError"
+    | _, _, _ => "bad-op"
   | ["sfdtype", sub] =>
     match parseStr sub with
     | some s =>
